@@ -78,6 +78,8 @@ func rewrites() []textRewrite {
 		{"go/libraries/doltcore/sqle/dsess/sequence_tracker.go", `(?m)^(\t+)(a\.sequences\.Store\(relationName, (?:nextState|givenState)\))$`, "${1}dsimSeqYield(\"seq.before-store\")\n${1}${2}", 2},
 		// a scheduling point before every git subprocess of the git-backed blobstore (C42)
 		{"go/store/blobstore/internal/git/runner.go", `(?m)^(func \(r \*Runner\) (?:Run|Start)\(ctx context\.Context, opts RunOptions, args \.\.\.string\) \([^)]*\) \{)$`, "$1\n\tdsimGitYield(args)", 2},
+		// the sealer's clock: sealer and unsealer can be given different ones (C39)
+		{"go/libraries/doltcore/remotesrv/sealer.go", `time\.Now\(\)`, "dsimSealerNow()", 4},
 		// the puller's table-file size: one transfer becomes many files when a run lowers it
 		{"go/libraries/doltcore/doltdb/doltdb.go", `defaultTargetFileSize, srcCS`, "DsimPullTargetFileSize, srcCS", 1},
 	}
@@ -177,6 +179,27 @@ func main() {
 		dst := filepath.Join(*out, "inj_"+filepath.Base(p))
 		writeIfChanged(dst, b)
 		replace[target] = dst
+	}
+
+	// 2b. transplants: a file of a dolt command (package main, not importable) compiled, unchanged but
+	// for its package clause, as part of a harness-side package, so that the harness runs the real code
+	// instead of a copy of it
+	simDir := filepath.Dir(filepath.Clean(*patch))
+	for _, tp := range []struct{ src, dstDir, pkg string }{
+		{"go/utils/remotesrv/cscache.go", "realcs", "realcs"},
+	} {
+		b, err := os.ReadFile(filepath.Join(*repo, tp.src))
+		if err != nil {
+			die("transplant: %v", err)
+		}
+		re := regexp.MustCompile(`(?m)^package main$`)
+		if len(re.FindAllIndex(b, -1)) != 1 {
+			die("transplant %s: package clause not found", tp.src)
+		}
+		nb := re.ReplaceAll(b, []byte("package "+tp.pkg))
+		dst := filepath.Join(*out, "tp_"+strings.ReplaceAll(tp.src, "/", "_")+".txt")
+		writeIfChanged(dst, nb)
+		replace[filepath.Join(simDir, tp.dstDir, "zz_"+filepath.Base(tp.src))] = dst
 	}
 
 	// 3. rewrites of repo files, computed from the current tree
